@@ -24,10 +24,10 @@ def free_opts(rng, k):
     return o
 
 
-def make_cases(beh, kind, sizes_of, run, allq=0, zq=0, vmap="int", extra=None):
-    rng = random.Random(run.seed)
+def make_cases(beh, kind, sizes_of, run, allq=0, zq=0, vmap="int", extra=None, k0=0):
+    rng = random.Random(run.seed + k0)
     cases = []
-    for k, b in enumerate(beh):
+    for k, b in enumerate(beh, k0):
         o = free_opts(rng, k + run.seed)
         o["ips"] = b["ips"]
         o["zooms"] = b["zooms"]
@@ -41,29 +41,40 @@ def make_cases(beh, kind, sizes_of, run, allq=0, zq=0, vmap="int", extra=None):
     return cases
 
 
-def judge(run, pid, module, cases, nontrivial, describe, hang_timeout=20, known_tags=None):
-    obs = run_harness("bbi", cases, run.wd, hang_timeout=hang_timeout)
-    lines = []
-    for o in obs:
-        o.pop("case", None)
-        lines.append(json.dumps(o, separators=(",", ":")))
-        run.count_case(json.dumps([o["items"], o["opts"]["ips"], o["opts"]["zooms"], o.get("scale", 1)]), nontrivial(o))
-    bad = validate_obs(module, "Obs.cfg", lines, run.wd, "obs", extra_env={"PROP": pid})
-    run.drift += len(validate_obs.last_drift)
-    run.cov["traces_validated_against_impl"] += len(obs)
+def judge(run, pid, module, cases, nontrivial, describe, hang_timeout=20, known_tags=None, chunk=200000):
+    """Executes the cases on the real code and lets TLC judge every observation.  Large case lists are
+    processed in chunks (memory); the returned list holds every observation of the first chunk and, of
+    the later ones, only the automatic-zoom / long behaviours the callers look at."""
+    kept = []
     tags = {}
-    for i, tag in bad:
-        tags[tag] = tags.get(tag, 0) + 1
+    for lo in range(0, max(len(cases), 1), chunk):
+        part = cases[lo:lo + chunk]
+        if not part:
+            break
+        obs = run_harness("bbi", part, run.wd, hang_timeout=hang_timeout)
+        lines = []
+        for o in obs:
+            o.pop("case", None)
+            lines.append(json.dumps(o, separators=(",", ":")))
+            run.count_case(json.dumps([o["items"], o["opts"]["ips"], o["opts"]["zooms"], o.get("scale", 1)]), nontrivial(o))
+        bad = validate_obs(module, "Obs.cfg", lines, run.wd, "obs", extra_env={"PROP": pid})
+        del lines
+        run.drift += len(validate_obs.last_drift)
+        run.cov["traces_validated_against_impl"] += len(obs)
+        for i, tag in bad:
+            tags[tag] = tags.get(tag, 0) + 1
+        for i, tag in bad:
+            o = obs[i]
+            rep = {"kind": "bbi", "tag": tag, "case": {k: (o[k] if not (o.get("long") and k == "items") else "generated: [1, 2i, 2i+1, 1+i%3] for i < 70000") for k in o if k != "obs"}, "obs": describe(o)}
+            if tag.startswith("known:"):
+                rep["known"] = tag.split(":", 1)[1]
+            run.violation("%s: %s on input %s opts %s" % (pid, tag, json.dumps(o["items"])[:400], json.dumps(o["opts"])), rep)
+        kept += obs if lo == 0 else [o for o in obs if o.get("long") or o["opts"].get("zmode") == "auto"]
+        del obs
     if tags:
         run.cov.setdefault("bad_tags", {}).update(tags)
         log("[%s] failing observations by tag: %s" % (pid, tags))
-    for i, tag in bad:
-        o = obs[i]
-        rep = {"kind": "bbi", "tag": tag, "case": {k: (o[k] if not (o.get("long") and k == "items") else "generated: [1, 2i, 2i+1, 1+i%3] for i < 70000") for k in o if k != "obs"}, "obs": describe(o)}
-        if tag.startswith("known:"):
-            rep["known"] = tag.split(":", 1)[1]
-        run.violation("%s: %s on input %s opts %s" % (pid, tag, json.dumps(o["items"])[:400], json.dumps(o["opts"])), rep)
-    return obs
+    return kept
 
 
 def emit_sim(run, module, cfg, num, depth=40):
@@ -79,6 +90,24 @@ def emit_sim(run, module, cfg, num, depth=40):
             seen.add(k)
             out.append(b)
     return out
+
+
+def each_batch(run, module, cfgs, size=400000, sims=()):
+    """behaviours of the exhaustive configurations one configuration and one slice at a time (memory),
+    then the simulated ones: yields (slice, index of its first behaviour)"""
+    k0 = 0
+    for cfg in cfgs:
+        beh = emit(run, module, [cfg], min_behaviours=1)
+        for lo in range(0, len(beh), size):
+            yield beh[lo:lo + size], k0 + lo
+        k0 += len(beh)
+        del beh
+    for cfg, num in sims:
+        beh = emit_sim(run, module, cfg, num)
+        yield beh, k0
+        k0 += len(beh)
+    if k0 < 50:
+        raise ToolError("vacuity: only %d behaviours emitted by %s" % (k0, module))
 
 
 def emit(run, module, cfgs, min_behaviours=50):
